@@ -5,7 +5,7 @@ from .common import Ctx, Obligation, tail
 def run(args):
     ctx = Ctx("C09", args.tier, args.seed)
     ctx.assumptions += [
-        "idempotence is proved for the expression ladder (corollary of C08) and for the CLI logic given an idempotent formatter; whole-file idempotence and text hygiene are decided by the oracle",
+        "idempotence is proved for the expression ladder (corollary of C08) and for the CLI logic given an idempotent formatter; the output writer is modelled and proved to add no tab and no trailing whitespace (writer_hygiene) — the pieces the formatter hands it, whole-file idempotence and the single final newline are decided by the oracle",
     ]
     ctx.proof_stage("IncanModel.Props.C09")
     ok, out = ctx.build_harness()
@@ -40,6 +40,24 @@ def run(args):
                 failures.append({"request": req, "real": real, "why": "fmt must rewrite the file with the formatted text"})
             if kind == "unformatted" and check and real != "exit1 unchanged":
                 failures.append({"request": req, "real": real, "why": "--check must report a file that fmt would rewrite"})
+        # the output writer: real FormatWriter (hook) vs the model, operation sequence by operation sequence
+        wcases, wmetas = ctx.run_harness("c09w")
+        metas = metas + wmetas
+        wmodel = ctx.run_driver([c[0] for c in wcases])
+        ctx.tie("model writer (Tool/Writer) = real FormatWriter on generated operation sequences (text and the client-side condition)", wcases, wmodel)
+        n_writer_clean = 0
+        for req, real in wcases:
+            ctx.nontrivial.add(req[:120])
+            flag, _, enc = real.partition(" ")
+            if flag == "1" and enc not in ("-", "") and not enc.startswith("panic"):
+                text = "".join(chr(int(x, 16)) for x in enc.split(","))
+                n_writer_clean += 1
+                bad = [ln for ln in text.split("\n") if ln != ln.rstrip(" \t")] or ("\t" in text)
+                if bad:
+                    failures.append({"request": req[:300], "real": real[:300],
+                                     "why": "the writer produced trailing whitespace / a tab although every piece it was given is clean (writer_hygiene)"})
+            if enc.startswith("panic"):
+                failures.append({"request": req[:300], "real": real[:300], "why": "the writer panicked"})
         hist = {}
         n_ok = 0
         for req, real in files:
@@ -53,11 +71,11 @@ def run(args):
                 hist[x[:40]] = hist.get(x[:40], 0) + 1
             failures.append({"request": req[:300], "real": "; ".join(c09)[:400],
                              "why": "not idempotent / --check inconsistent / hygiene violated"})
-        ctx.evaluations = len(cases)
+        ctx.evaluations = len(cases) + len(wcases)
         for f in failures[:5]:
             ctx.violation("oracle", f)
         ctx.samples = [{"request": r[:200], "real": o[:200]} for r, o in cli[:3] + files[30:33]]
-        ctx.coverage_extra = {"cli_cases": len(cli), "sources": len(files), "sources_ok": n_ok, "failure_kinds": hist,
+        ctx.coverage_extra = {"cli_cases": len(cli), "sources": len(files), "sources_ok": n_ok, "failure_kinds": hist, "writer_sequences": len(wcases), "writer_sequences_client_ok": n_writer_clean,
                               "harness_meta": metas}
     ctx.conclude_broken_obligations(failures)
     return ctx.finish(
